@@ -1551,7 +1551,9 @@ class ZMatrix(TwoPortMatrix):
     @classmethod
     def Pisection(cls, Z1, Z2, Z3):
 
-        Za, Zb, Zc = DeltaWye(Z1, Z2, Z3)
+        # Delta to wye
+        ZZ = Z1 + Z2 + Z3
+        Za, Zb, Zc = Z1 * Z2 / ZZ, Z1 * Z3 / ZZ, Z2 * Z3 / ZZ
         return cls.Tsection(Za, Zb, Zc)
 
 
